@@ -355,7 +355,8 @@ pub fn inflight(t: &mut Toks) -> String {
     out
 }
 
-/// case: realstop <kind 0|1> <nrows> <gap_ms>
+/// case: realstop <kind 0|1|2> <nrows> <gap_ms>   (kind 2: a local transaction of <nrows> rows through the
+///   node's HTTP API, acknowledged before the shutdown starts)
 ///   a REAL node (agent::start_with_config: API, gossip, change handler, buffered-apply loop, sync
 ///   loop ...) with a real subscription.  kind 0: one remote version of <nrows> rows is offered to
 ///   the change handler; kind 1: the same version arrives as two chunks, is buffered, and the
@@ -404,7 +405,13 @@ pub fn realstop(t: &mut Toks) -> String {
         let actor = ActorId(uuid::Uuid::from_u128(0xfeed));
         let changes: Vec<_> = (0..nrows).map(|i| agentkit::mk_change(actor, 1, i as u64, 1000 + i, "remote", 1, 1)).collect();
         let last = (nrows - 1) as u64;
-        if kind == 0 {
+        if kind == 2 {
+            // a local transaction through the node's real HTTP API, acknowledged, then shutdown
+            let vals: Vec<String> = (0..nrows).map(|i| format!("({}, 'local')", 1000 + i)).collect();
+            let body = format!(r#"["INSERT INTO tests (id, text) VALUES {}"]"#, vals.join(", "));
+            let (st, _) = crate::c17::http(agent.api_addr(), "POST", "/v1/transactions", &[], &body).await;
+            assert_eq!(st, 200, "transaction");
+        } else if kind == 0 {
             let cv = agentkit::full(actor, 1, changes, 0, last, last, 1);
             agent.tx_changes().send((cv, ChangeSource::Sync)).await.unwrap();
         } else {
